@@ -94,9 +94,9 @@ func (p *Prog) sortedLater(fn *ssa.Function, built ssa.Value, loop map[*ssa.Basi
 }
 
 type rangeVerdict struct {
-	ordered bool   // the loop's effect depends on iteration order
+	ordered bool // the loop's effect depends on iteration order
 	reason  string
-	sorted  bool   // ... but the produced sequence is sorted before use
+	sorted  bool // ... but the produced sequence is sorted before use
 }
 
 // classifyMapRange decides whether the body of a range-over-map loop is order-sensitive.
